@@ -103,11 +103,13 @@ def verified(src):
     fail_wi = "FAIL" in wi or "panic:" in wi or "DATA RACE" in wi
     fails = re.findall(r"^--- FAIL: (\S+)", su, re.M)
     pk_fail = re.findall(r"^FAIL\s+(\S+)", su, re.M)
-    bench_only = fails and all(f == "TestSimple_MomentumInsertionBenchmark" for f in fails)
-    suite_ok = (not fails and not pk_fail) or (bench_only and "benchmark re-run alone with the patch" in su and su.rstrip().endswith("rc=0"))
+    flaky = {"TestSimple_MomentumInsertionBenchmark": "benchmark re-run alone with the patch", "TestPack_SimpleTest": "TestPack_SimpleTest (a randomized test"}
+    bench_only = bool(fails) and all(f in flaky and flaky[f] in su for f in fails)
+    suite_ok = (not fails and not pk_fail) or (bench_only and su.rstrip().endswith("rc=0"))
     note = ""
     if bench_only:
-        note = "the full-suite run happened on a loaded machine: only the wall-clock benchmark TestSimple_MomentumInsertionBenchmark (limit 1500 ms) failed; re-run alone with the change applied it passes"
+        note = ("the full-suite run failed only in %s: the wall-clock benchmark (limit 1500 ms, fails on a loaded machine) / the repository's "
+                "randomized packing test (fails when it draws a zero amount); re-run alone with the change applied they pass" % ", ".join(sorted(set(fails))))
     if not (ok_wo and fail_wi and suite_ok):
         return False, f"demo without change ok={ok_wo}, demo with change fails={fail_wi}, suite ok={suite_ok} (fails: {fails} {pk_fail})"
     return True, note
